@@ -358,6 +358,9 @@ package fit
 //@@ the size a definition message declares for a profile field: strings their fixed length, arrays
 //@@ element size times length, everything else the size of the base type (FIT protocol, C05)
 //@ spec defSize(f *field) byte := ite(fbase(f.t) == types.BaseString, f.length, ite(farray(f.t), byte(bsize(fbase(f.t)))*f.length, byte(bsize(fbase(f.t)))))
+//@@ the bytes a field occupies in a data record (defSize without the truncation to a byte), and their sum
+//@ spec encLen(f *field) int := ite(fbase(f.t) == types.BaseString, int(f.length), ite(farray(f.t), bsize(fbase(f.t))*int(f.length), bsize(fbase(f.t))))
+//@ spec rec esum(fs []*field, k int) int := ite(k <= 0, 0, esum(fs, k-1)+encLen(fs[k-1]))
 //@ pred wf_encdef(def *encodeMesgDef) := len(def.fields) <= 255 && (forall k in 0..len(def.fields) :: def.fields[k] != nil && byte(def.fields[k].t)&0x1F <= 16)
 
 //@ func (e *encoder) writeDefMesg(def *encodeMesgDef) (err error)
@@ -397,13 +400,19 @@ package fit
 //@ func (e *encoder) writeField(value reflect.Value, f *field) (err error)
 //@   props C05 C06
 //@   locals i byte, max byte
-//@   requires e.w != nil && (isLE(e.arch) || isBE(e.arch)) && f != nil && rvvalid(value)
+//@   requires e.w != nil && (isLE(e.arch) || isBE(e.arch)) && f != nil && rvvalid(value) && byte(f.t)&0x1F <= 16
 //@   requires [array] farray(f.t) ==> fkind(f.t) == 0 && rvcls(value) == 5
 //@   requires [kinds] !farray(f.t) ==> (fkind(f.t) == 1 || fkind(f.t) == 2 ==> typeis[time.Time](ifaceOf(value))) && (fkind(f.t) == 3 ==> typeis[Latitude](ifaceOf(value))) && (fkind(f.t) == 4 ==> typeis[Longitude](ifaceOf(value)))
 //@   requires [strings] fkind(f.t) == 0 && fbase(f.t) == types.BaseString ==> f.length >= 1
+//@@ C05: the field occupies exactly the bytes its definition declares
+//@   requires [sizes] fkind(f.t) == 0 && fbase(f.t) != types.BaseString ==> ite(farray(f.t), rvewid(value) == 8*bsize(fbase(f.t)), binsize(ifaceOf(value)) == bsize(fbase(f.t)))
+//@   requires [sizes4] fkind(f.t) != 0 ==> bsize(fbase(f.t)) == 4 && fbase(f.t) != types.BaseString
+//@   ensures [field-len] err == nil ==> wpos(e.w) == old(wpos(e.w))+encLen(f)
 //@   ensures [append] wpos(e.w) >= old(wpos(e.w)) && (forall k in 0..old(wpos(e.w)) :: outb(e.w, k) == old(outb(e.w, k)))
 //@   assigns wpos(e.w), outb(e.w, *)
 //@@ an array field always occupies its full profile length: the elements present, then the base type's invalid value
+//@   loop 0 invariant [len] wpos(e.w) == old(wpos(e.w))+int(i)*bsize(fbase(f.t))
+//@   loop 1 invariant [len] wpos(e.w) == old(wpos(e.w))+int(i)*bsize(fbase(f.t))
 //@   loop 0 invariant [append] i <= max && wpos(e.w) >= old(wpos(e.w)) && (forall k in 0..old(wpos(e.w)) :: outb(e.w, k) == old(outb(e.w, k)))
 //@   loop 0 assigns wpos(e.w), outb(e.w, *)
 //@   loop 0 decreases int(max) - int(i)
@@ -422,7 +431,10 @@ package fit
 //@  |   (!farray(pf(m, n).t) && (fkind(pf(m, n).t) == 1 || fkind(pf(m, n).t) == 2) ==> rvTypeTag(int(m), pf(m, n).sindex) == typetag[time.Time]()) &&
 //@  |   (!farray(pf(m, n).t) && fkind(pf(m, n).t) == 3 ==> rvTypeTag(int(m), pf(m, n).sindex) == typetag[Latitude]()) &&
 //@  |   (!farray(pf(m, n).t) && fkind(pf(m, n).t) == 4 ==> rvTypeTag(int(m), pf(m, n).sindex) == typetag[Longitude]()) &&
-//@  |   (fkind(pf(m, n).t) == 0 && fbase(pf(m, n).t) == types.BaseString ==> pf(m, n).length >= 1)
+//@  |   (fkind(pf(m, n).t) == 0 && fbase(pf(m, n).t) == types.BaseString ==> pf(m, n).length >= 1) &&
+//@  |   (fkind(pf(m, n).t) != 0 ==> bsize(fbase(pf(m, n).t)) == 4 && fbase(pf(m, n).t) != types.BaseString) &&
+//@  |   encLen(pf(m, n)) <= 255 && int(defSize(pf(m, n))) == encLen(pf(m, n)) &&
+//@  |   (fkind(pf(m, n).t) == 0 && fbase(pf(m, n).t) != types.BaseString ==> ite(farray(pf(m, n).t), rvEWidth(int(m), pf(m, n).sindex) == 8*bsize(fbase(pf(m, n).t)), tagsize(rvTypeTag(int(m), pf(m, n).sindex)) == bsize(fbase(pf(m, n).t))))
 
 //@@ a definition built by the encoder lists profile fields of its message
 //@ pred enc_def_of(def *encodeMesgDef) := wf_encdef(def) && (forall k in 0..len(def.fields) :: def.fields[k] == pf(def.globalMesgNum, def.fields[k].num))
@@ -435,6 +447,9 @@ package fit
 //@   use enc_field_ok(def.globalMesgNum)
 //@   requires e.w != nil && (isLE(e.arch) || isBE(e.arch)) && def != nil && enc_def_of(def) && rvismsg(mesg, int(def.globalMesgNum)) && def.globalMesgNum < 0xFF00
 //@   ensures [header] err == nil ==> wpos(e.w) >= old(wpos(e.w))+1 && outb(e.w, old(wpos(e.w))) == def.localMesgNum&0x0F
+//@@ C05: the record is the header byte plus, for every field of the definition, the bytes the definition declares
+//@   ensures [record-len] err == nil ==> wpos(e.w) == old(wpos(e.w))+1+esum(def.fields, len(def.fields))
+//@   loop 0 invariant [len] wpos(e.w) == old(wpos(e.w))+1+esum(def.fields, rangeindex+1)
 //@   ensures [append] wpos(e.w) >= old(wpos(e.w)) && (forall k in 0..old(wpos(e.w)) :: outb(e.w, k) == old(outb(e.w, k)))
 //@   gassign nrecords(e) := nrecords(e)+1 when err == nil
 //@   assigns wpos(e.w), outb(e.w, *)
@@ -506,6 +521,12 @@ package fit
 //@   ensures [time-local] err == nil && fkind(f.t) == 2 && timeInRange(value.(time.Time)) ==> wpos(e.w) == old(wpos(e.w))+4 && out32(e, old(wpos(e.w)), uint32(tsec(value.(time.Time))-631065600+tzoff(value.(time.Time))))
 //@   ensures [lat] err == nil && fkind(f.t) == 3 ==> wpos(e.w) == old(wpos(e.w))+4 && out32(e, old(wpos(e.w)), uint32(value.(Latitude).semicircles))
 //@   ensures [lng] err == nil && fkind(f.t) == 4 ==> wpos(e.w) == old(wpos(e.w))+4 && out32(e, old(wpos(e.w)), uint32(value.(Longitude).semicircles))
+//@@ C05: a native value occupies as many bytes as its type is wide; a string exactly the field's length
+//@   ensures [fixed-len] err == nil && fkind(f.t) != 0 ==> wpos(e.w) == old(wpos(e.w))+4
+//@   ensures [native-len] err == nil && fkind(f.t) == 0 && fbase(f.t) != types.BaseString && binsize(value) > 0 ==> wpos(e.w) == old(wpos(e.w))+binsize(value)
+//@   ensures [string-len] err == nil && fkind(f.t) == 0 && fbase(f.t) == types.BaseString ==> wpos(e.w) == old(wpos(e.w))+int(f.length)
+//@@ C06: and those bytes are the text (cut to length-1 bytes) followed by NULs
+//@   ensures [string-bytes] err == nil && fkind(f.t) == 0 && fbase(f.t) == types.BaseString ==> typeis[string](value) && (forall k in 0..int(f.length) :: outb(e.w, old(wpos(e.w))+k) == ite(k < len(value.(string)) && k < int(f.length)-1, value.(string)[k], byte(0)))
 //@   ensures [append] wpos(e.w) >= old(wpos(e.w)) && (forall k in 0..old(wpos(e.w)) :: outb(e.w, k) == old(outb(e.w, k)))
 //@   assigns wpos(e.w), outb(e.w, *)
 
@@ -518,7 +539,10 @@ package fit
 //@   props C05 C07
 //@   use file_msgs_known()
 //@   requires [arch] isLE(arch) || isBE(arch)
-//@   slow header 120
+//@   slow header 240
+//@   slow header-size 240
+//@   slow header-type 240
+//@   slow header-crc 240
 //@   slow fresh-key 120
 //@   requires [args] w != nil && file != nil && 0 <= wpos(w) && wpos(w) < 1<<32
 //@   requires [wf] wf_file(file)
@@ -544,9 +568,9 @@ package fit
 //@@ header CRC and the file CRC are the values stored back into the File, little-endian on the wire
 //@   ensures [data-size] err == nil ==> file.Header.DataSize == uint32(wpos(w)-old(wpos(w))-hdrLen(file.Header)-2) && wpos(w)-old(wpos(w)) >= hdrLen(file.Header)+2
 //@   ensures [header] err == nil ==> outb(w, old(wpos(w))) == file.Header.Size && outb(w, old(wpos(w))+1) == file.Header.ProtocolVersion &&
-//@  |   outb(w, old(wpos(w))+2) == byte(file.Header.ProfileVersion) && outb(w, old(wpos(w))+3) == byte(file.Header.ProfileVersion>>8) &&
-//@  |   outb(w, old(wpos(w))+4) == byte(file.Header.DataSize) && outb(w, old(wpos(w))+5) == byte(file.Header.DataSize>>8) && outb(w, old(wpos(w))+6) == byte(file.Header.DataSize>>16) && outb(w, old(wpos(w))+7) == byte(file.Header.DataSize>>24) &&
-//@  |   outb(w, old(wpos(w))+8) == file.Header.DataType[0] && outb(w, old(wpos(w))+9) == file.Header.DataType[1] && outb(w, old(wpos(w))+10) == file.Header.DataType[2] && outb(w, old(wpos(w))+11) == file.Header.DataType[3]
+//@  |   outb(w, old(wpos(w))+2) == byte(file.Header.ProfileVersion) && outb(w, old(wpos(w))+3) == byte(file.Header.ProfileVersion>>8)
+//@   ensures [header-size] err == nil ==> outb(w, old(wpos(w))+4) == byte(file.Header.DataSize) && outb(w, old(wpos(w))+5) == byte(file.Header.DataSize>>8) && outb(w, old(wpos(w))+6) == byte(file.Header.DataSize>>16) && outb(w, old(wpos(w))+7) == byte(file.Header.DataSize>>24)
+//@   ensures [header-type] err == nil ==> outb(w, old(wpos(w))+8) == file.Header.DataType[0] && outb(w, old(wpos(w))+9) == file.Header.DataType[1] && outb(w, old(wpos(w))+10) == file.Header.DataType[2] && outb(w, old(wpos(w))+11) == file.Header.DataType[3]
 //@   ensures [header-crc] err == nil && file.Header.Size == 14 ==> file.Header.CRC == hdr12Sum(file.Header) && outb(w, old(wpos(w))+12) == byte(file.Header.CRC) && outb(w, old(wpos(w))+13) == byte(file.Header.CRC>>8)
 //@   ensures [file-crc] err == nil ==> outb(w, wpos(w)-2) == byte(file.CRC) && outb(w, wpos(w)-1) == byte(file.CRC>>8)
 //@   ensures [prefix] forall k in 0..old(wpos(w)) :: outb(w, k) == old(outb(w, k))
